@@ -331,6 +331,7 @@ func (P) Generate(g *core.Gen) {
 	genHeight(g, g.R.Fork())
 	genFinal(g, g.R.Fork())
 	genSeqLock(g, g.R.Fork())
+	genHardening(g, g.R.Fork())
 }
 
 func genMerkle(g *core.Gen, r *core.Rand) {
@@ -514,6 +515,9 @@ func genCommit(g *core.Gen, r *core.Rand) {
 		txs[0] = coinbaseTx(r, cbOuts, wit)
 		txs[0].TxIn[0].SignatureScript = sig
 		g.Case(class, n >= 2, "C13 vwc "+txsTok(txs))
+		if i%3 == 0 {
+			g.Case(class+"-frombytes", n >= 2, "C13 vwcb "+txsTok(txs))
+		}
 	}
 	g.Case("vwc-empty", false, "C13 vwc _")
 	g.Case("vwc-no-inputs", false, "C13 vwc "+txsTok([]*wire.MsgTx{{Version: 1}}))
@@ -917,4 +921,236 @@ func genSeqLock(g *core.Gen, r *core.Rand) {
 			}
 		}
 	}
+}
+
+// ---------------------------------------------------------------- hardening round
+
+func randHash(r *core.Rand) string {
+	switch r.Intn(6) {
+	case 0:
+		return strings.Repeat("00", 32)
+	case 1:
+		return strings.Repeat("ff", 32)
+	}
+	return hx(r.Bytes(32))
+}
+
+// subLine builds one self-contained case (without the "C13 " prefix) for the
+// concurrent groups; every kind touches package-level state of btcd (opcode
+// table, serializer buffer pool, hash caches).
+func subLine(r *core.Rand) string {
+	switch r.Intn(12) {
+	case 0:
+		return "sigops " + hx(randScript(r, 10, r.Chance(1, 3)))
+	case 1:
+		sig, _ := sigScriptFor(r)
+		return fmt.Sprintf("p2sh %s %s", hx(sig), hx(p2shScript(r)))
+	case 2:
+		sig, _ := sigScriptFor(r)
+		pk, _ := pkVariant(r)
+		return fmt.Sprintf("wsig %s %s %s", hx(sig), hx(pk), witTok(witnessFor(r)))
+	case 3:
+		w := r.Intn(2)
+		return fmt.Sprintf("merkle %d %s", w, txsTok(leafList(r, 1+r.Intn(24), r.Intn(2), 0, w == 1)))
+	case 4:
+		return "mvalues " + txsTok(leafList(r, r.Intn(16), 0, 0, true))
+	case 5:
+		n := 1 + r.Intn(12)
+		w := r.Intn(2)
+		return fmt.Sprintf("merkleb %d %d %s", w, r.Intn(n+1)-1, txsTok(leafList(r, n, 0, 0, true)))
+	case 6:
+		return "txw " + txTok(smallTx(r, true))
+	case 7:
+		return "tok " + hx(randScript(r, 8, r.Chance(1, 3)))
+	case 8:
+		pk, _ := pkVariant(r)
+		return "script " + hx(pk)
+	case 9:
+		return fmt.Sprintf("hmb %s %s", randHash(r), randHash(r))
+	case 10:
+		h := r.Range(0, 1<<31-1)
+		return fmt.Sprintf("cbh %s %d", hx(append(heightScriptOf(h), r.Bytes(r.Intn(4))...)), h)
+	default:
+		return fmt.Sprintf("final %d %d %d %d", r.Pick(0, 1, 499999999, 500000000, 500000001), r.Intn(3), 500000000+r.Intn(3), r.Pick(0xffffffff, 0xfffffffe))
+	}
+}
+
+func genHardening(g *core.Gen, r *core.Rand) {
+	// A1: every exported entry point ------------------------------------
+	for i := 0; i < g.N(60, 400); i++ {
+		g.Case("hash-merkle-branches", true, fmt.Sprintf("C13 hmb %s %s", randHash(r), randHash(r)))
+	}
+	// IsCoinBase / IsCoinBaseTx: null outpoint exactly
+	cbBase := func() *wire.MsgTx { return coinbaseTx(r, nil, nil) }
+	g.Case("is-coinbase", true, "C13 iscb "+txTok(cbBase()))
+	for b := 0; b < 32; b++ {
+		t := cbBase()
+		t.TxIn[0].PreviousOutPoint.Hash[b] = byte(1 << r.Intn(8))
+		g.Case("is-coinbase", true, "C13 iscb "+txTok(t))
+	}
+	for _, idx := range []uint32{0, 1, 0x7fffffff, 0x80000000, 0xfffffffe, 0xffffffff} {
+		t := cbBase()
+		t.TxIn[0].PreviousOutPoint.Index = idx
+		g.Case("is-coinbase", true, "C13 iscb "+txTok(t))
+	}
+	{
+		t := cbBase()
+		t.TxIn = nil
+		g.Case("is-coinbase", false, "C13 iscb "+txTok(t))
+		t = cbBase()
+		t.TxIn = append(t.TxIn, t.TxIn[0])
+		g.Case("is-coinbase", true, "C13 iscb "+txTok(t))
+		t = cbBase()
+		t.TxIn = append([]*wire.TxIn{{PreviousOutPoint: randOutPoint(r)}}, t.TxIn...)
+		g.Case("is-coinbase", true, "C13 iscb "+txTok(t))
+	}
+	// tokenizer: every instruction, where it stops
+	for op := 0; op < 256; op++ {
+		g.Case("tokenizer", true, "C13 tok "+hx(append([]byte{byte(op)}, r.Bytes(r.Intn(80))...)))
+	}
+	for i := 0; i < g.N(600, 5000); i++ {
+		g.Case("tokenizer", true, "C13 tok "+hx(randScript(r, 10, r.Chance(1, 3))))
+	}
+	g.Case("tokenizer", false, "C13 tok -")
+	// exported script predicates: all versions x program sizes around 2 / 40, total sizes 3..43
+	for v := 0; v < 256; v++ {
+		l := int(r.Pick(2, 20, 32, 40))
+		g.Case("script-predicates", true, "C13 script "+hx(append([]byte{byte(v), byte(l)}, r.Bytes(l)...)))
+	}
+	for _, v := range []byte{0x00, 0x4f, 0x50, 0x51, 0x60, 0x61} {
+		for l := 0; l <= 42; l++ {
+			for d := -1; d <= 1; d++ {
+				if l+d < 0 {
+					continue
+				}
+				g.Case("script-predicates", true, "C13 script "+hx(append([]byte{v, byte(l)}, r.Bytes(l+d)...)))
+			}
+		}
+	}
+	for i := 0; i < g.N(500, 4000); i++ {
+		pk, _ := pkVariant(r)
+		if r.Chance(1, 3) {
+			pk, _ = sigScriptFor(r)
+		}
+		g.Case("script-predicates", len(pk) > 0, "C13 script "+hx(pk))
+	}
+	// merkle roots through blocks decoded from bytes (cached raw bytes), optionally with one
+	// transaction wrapped lazily before Transactions()
+	for n := 1; n <= g.N(24, 70); n++ {
+		for w := 0; w <= 1; w++ {
+			txs := txsTok(leafList(r, n, r.Intn(2), 0, true))
+			for _, pre := range []int{-1, 0, n / 2, n - 1} {
+				g.Case("merkle-from-bytes", n >= 2, fmt.Sprintf("C13 merkleb %d %d %s", w, pre, txs))
+			}
+		}
+	}
+	// A2: results are values
+	for n := 0; n <= g.N(33, 80); n++ {
+		g.Case("merkle-values", n >= 2, "C13 mvalues "+txsTok(leafList(r, n, 0, 0, true)))
+	}
+	// A3: no hidden shared state: 10 instances at once, each repeated
+	for i := 0; i < g.N(40, 300); i++ {
+		subs := make([]string, 8+r.Intn(5))
+		for j := range subs {
+			subs[j] = strings.ReplaceAll(subLine(r), " ", "^")
+		}
+		g.Case("concurrent-group", true, "C13 par "+strings.Join(subs, "~"))
+	}
+	// A5: boundary triples ------------------------------------------------
+	// push lengths where the opcode / length prefix changes
+	type pd struct {
+		op  byte
+		lb  int
+		len int
+	}
+	for _, c := range []pd{{0, 0, 74}, {0, 0, 75}, {0x4c, 1, 0}, {0x4c, 1, 74}, {0x4c, 1, 75}, {0x4c, 1, 76}, {0x4c, 1, 254}, {0x4c, 1, 255},
+		{0x4d, 2, 0}, {0x4d, 2, 255}, {0x4d, 2, 256}, {0x4d, 2, 257}, {0x4d, 2, 65534}, {0x4d, 2, 65535},
+		{0x4e, 4, 0}, {0x4e, 4, 65535}, {0x4e, 4, 65536}, {0x4e, 4, 65537}} {
+		var hdr []byte
+		if c.lb == 0 {
+			hdr = []byte{byte(c.len)}
+		} else {
+			hdr = []byte{c.op}
+			for k := 0; k < c.lb; k++ {
+				hdr = append(hdr, byte(c.len>>(8*k)))
+			}
+		}
+		data := bytes0xac(c.len)
+		for _, short := range []int{0, 1} {
+			if c.len-short < 0 {
+				continue
+			}
+			s := append(append([]byte{0xac}, hdr...), data[:c.len-short]...)
+			if short == 0 {
+				s = append(s, 0x51, 0xae)
+			}
+			g.Case("push-length-boundary", true, "C13 sigops "+hx(s))
+			g.Case("push-length-boundary", true, "C13 tok "+hx(s))
+			if c.len <= 300 {
+				g.Case("push-length-boundary", true, fmt.Sprintf("C13 p2sh %s %s", hx(s), hx(p2shScript(r))))
+			}
+		}
+	}
+	// redeem scripts of every push size class as the last push of a scriptSig
+	for _, l := range []int{0, 1, 74, 75, 76, 77, 254, 255, 256, 257, 519, 520, 521} {
+		redeem := bytes0xac(l)
+		g.Case("redeem-size-boundary", true, fmt.Sprintf("C13 p2sh %s %s", hx(pushOf(redeem, false)), hx(p2shScript(r))))
+		g.Case("redeem-size-boundary", true, fmt.Sprintf("C13 wsig - %s %s", hx(append([]byte{0x00, 0x20}, r.Bytes(32)...)), witTok(wire.TxWitness{{0x01}, redeem})))
+	}
+	// sequence numbers at every flag / mask edge, median window sizes 10/11/12
+	edges := []uint32{0, 1, 0xfffe, 0xffff, 0x10000, 0x10001, 0x1ffff, 1<<22 - 1, 1 << 22, 1<<22 + 1, 1<<22 | 0xffff, 1<<22 | 0x10000,
+		1<<23 | 5, 1<<31 - 1, 1 << 31, 1<<31 | 1<<22 | 7, 0xfffffffe, 0xffffffff}
+	for _, L := range []int{1, 2, 3, 10, 11, 12, 13, 22, 23, 24} {
+		ts := make([]string, L)
+		for j := range ts {
+			ts[j] = strconv.FormatInt(1500000000+int64(r.Intn(5000)), 10)
+		}
+		for _, h := range []int{0, 1, 2, 9, 10, 11, 12, L - 2, L - 1} {
+			if h < 0 || h >= L {
+				continue
+			}
+			e := edges[r.Intn(len(edges))] | 1<<22
+			e &^= 1 << 31
+			g.Case("seqlock-median-window", true, fmt.Sprintf("C13 seqlock 1 2 0 %s %d:%d,%d:m", strings.Join(ts, ","), e, h, e))
+		}
+	}
+	for _, e := range edges {
+		g.Case("seqlock-flag-edges", true, fmt.Sprintf("C13 seqlock 1 2 0 1500000000,1500000700,1500000300 %d:1,%d:2,%d:m", e, e, e))
+		g.Case("seqlock-flag-edges", true, fmt.Sprintf("C13 lt2seq 1 %d", e))
+	}
+	for _, v := range []uint32{0, 1, 2, 3, 1<<31 - 1, 1 << 31, 1<<32 - 1} {
+		g.Case("seqlock-version-edges", v >= 2, fmt.Sprintf("C13 seqlock 1 %d 0 1500000000,1500000700 65535:1,4259839:0", v))
+		g.Case("seqlock-version-edges", false, fmt.Sprintf("C13 seqlock 0 %d 0 1500000000,1500000700 65535:1,4259839:0", v))
+	}
+	// multisig key counts around the small-int range in accurate mode
+	for _, op := range []byte{0x4f, 0x50, 0x51, 0x52, 0x5f, 0x60, 0x61, 0x00, 0x01} {
+		s := []byte{op}
+		if op == 0x01 {
+			s = append(s, 0x10)
+		}
+		for _, cms := range []byte{0xae, 0xaf} {
+			g.Case("multisig-count-boundary", true, "C13 sigops "+hx(append(append([]byte{}, s...), cms)))
+			g.Case("multisig-count-boundary", true, fmt.Sprintf("C13 wsig - %s %s", hx(append([]byte{0x00, 0x20}, r.Bytes(32)...)), witTok(wire.TxWitness{append(append([]byte{}, s...), cms)})))
+		}
+	}
+	// merkle: odd counts >= 5 and 2^k +- 1 through every path
+	for _, n := range []int{5, 7, 9, 11, 13, 15, 17, 31, 33, 63, 65, 127, 129, 255, 257, 511, 513} {
+		tok := txsTok(leafList(r, n, 0, 0, true))
+		for w := 0; w <= 1; w++ {
+			g.Case("merkle-odd-and-pow2", true, fmt.Sprintf("C13 merkle %d %s", w, tok))
+			g.Case("merkle-odd-and-pow2", true, fmt.Sprintf("C13 mroll %d %s", w, tok))
+			if n <= 129 {
+				g.Case("merkle-odd-and-pow2", true, fmt.Sprintf("C13 mstore %d %s", w, tok))
+				g.Case("merkle-odd-and-pow2", true, fmt.Sprintf("C13 merkleb %d %d %s", w, n-2, tok))
+			}
+		}
+	}
+}
+
+func bytes0xac(n int) []byte {
+	b := make([]byte, n)
+	for i := range b {
+		b[i] = 0xac
+	}
+	return b
 }
